@@ -452,7 +452,8 @@ def check_loader_semantics(db, chk, rule_assoc: str, rule_reenc: str) -> None:
                 md = s.attrs["meta_data"].get(rk) if isinstance(s.attrs.get("meta_data"), dict) else None
                 base = ("param", "TR", p)
                 if rule_assoc:
-                  chk.ob(rule_assoc, f"{ptag}: {T.show(rk)} holds the frame and the metadata parsed from trace_files[{T.show(rk)}]", isinstance(f, Frame) and f.base == base and to_term(md) == T.P(f"META:{p}"), where,
+                  chk.ob(rule_assoc, f"{ptag}: {T.show(rk)} holds the frame and the metadata parsed from trace_files[{T.show(rk)}]",
+                         (f.base == base and to_term(md) == T.P(f"META:{p}")) if isinstance(f, Frame) and isinstance(f.base, tuple) and f.base[:2] == ("param", "TR") else None, where,
                        found={"frame": T.show(f.base) if isinstance(f, Frame) else repr(f)[:60], "meta": T.show(to_term(md))[:60]}, accepted={"frame": f"TR[{p}]", "meta": f"META:{p}"},
                        why="results paired with another rank list (e.g. the dict order of trace_files) store one rank's frame under another rank")
                 if not isinstance(f, Frame) or not rule_reenc:
